@@ -23,6 +23,24 @@ def load(kind):
     return out
 
 def apply_edits(root, m):
+    if "patch" in m:
+        # a seeded change: applied with patch(1), undone by restoring the touched files
+        pf = os.path.join(VERIF, m["patch"])
+        saved = {}
+        for line in open(pf):
+            if line.startswith("+++ b/"):
+                fp = os.path.join(root, line[6:].strip())
+                if os.path.exists(fp):
+                    saved[fp] = open(fp).read()
+                else:
+                    saved[fp] = None
+        r = subprocess.run("patch -p1 -s --no-backup-if-mismatch < " + pf, cwd=root, shell=True, capture_output=True, text=True)
+        if r.returncode != 0:
+            for fp, txt in saved.items():
+                if txt is not None:
+                    open(fp, "w").write(txt)
+            raise RuntimeError("%s: patch does not apply: %s" % (m["id"], (r.stdout + r.stderr)[-200:]))
+        return saved
     edits = m.get("edits") or [m]
     saved = {}
     for e in edits:
@@ -74,13 +92,18 @@ def run_one(m, root, refactor):
         return (m["id"], "caught" + vet, "")
     finally:
         for p, s in saved.items():
-            open(p, "w").write(s)
+            if s is None:
+                if os.path.exists(p):
+                    os.remove(p)
+            else:
+                open(p, "w").write(s)
 
 def worker(ms, refactor):
     root = tempfile.mkdtemp(prefix="nbmut.")
     res = []
     try:
-        subprocess.run(["rsync", "-a", "--exclude", ".git", REPO + "/", root + "/"], check=True)
+        # the committed tree, not the working tree: seeded.py may have a patch applied to /repo right now
+        subprocess.run("git -C %s archive HEAD | tar -x -C %s" % (REPO, root), shell=True, check=True)
         vd = os.path.join(root, "_verif")
         os.makedirs(vd)
         # the scratch verif dir shares fixtures and known findings, evidence goes to scratch
@@ -102,9 +125,25 @@ def main():
     ap.add_argument("-j", type=int, default=8)
     ap.add_argument("--refactors", action="store_true")
     ap.add_argument("--list", action="store_true")
+    ap.add_argument("--seeded", action="store_true", help="run the seeded changes (seeded/*/patch.diff) as mutants in scratch copies")
     a = ap.parse_args()
     kind = "refactors" if a.refactors else "mutants"
-    ms = [m for m in load(kind) if a.k in m["id"] or a.k in m.get("prop", "") or a.k in m.get("ob", "")]
+    if a.seeded:
+        ms = []
+        sd = os.path.join(VERIF, "seeded")
+        res = {}
+        if os.path.exists(os.path.join(sd, "results.json")):
+            res = json.load(open(os.path.join(sd, "results.json")))
+        for sid in sorted(os.listdir(sd)):
+            mp = os.path.join(sd, sid, "meta.json")
+            if not os.path.isfile(mp):
+                continue
+            meta = json.load(open(mp))
+            props = [meta["property"]] + [p for p in res.get(sid, {}).get("fired", {}) if p != meta["property"]]
+            ms.append({"id": "seed-" + sid, "props": props, "patch": os.path.join("seeded", sid, "patch.diff")})
+        ms = [m for m in ms if a.k in m["id"]]
+    else:
+        ms = [m for m in load(kind) if a.k in m["id"] or a.k in m.get("prop", "") or a.k in m.get("ob", "")]
     if a.list:
         for m in ms:
             print(m["id"], m.get("prop", m.get("props")), m.get("ob", ""))
